@@ -358,7 +358,9 @@ class Inliner:
         # free globals of the helper must mean the same thing in the caller's module
         if h.module is not r.fn.module:
             local = set(h.params()) | _assigned_names(h.node.body)
-            for x in ast.walk(h.node):
+            # (parameter / return annotations disappear with the inlining: only the body and the defaults are transplanted)
+            transplanted = list(h.node.body) + list(h.node.args.defaults) + [d for d in h.node.args.kw_defaults if d is not None]
+            for x in (y for t in transplanted for y in ast.walk(t)):
                 if isinstance(x, ast.Name) and isinstance(x.ctx, ast.Load) and x.id not in local and x.id not in _BUILTINS:
                     if self.prog.resolve_dotted(h.module, x.id) != self.prog.resolve_dotted(r.fn.module, x.id):
                         return None
@@ -463,7 +465,8 @@ class Inliner:
                 return self._expr_helpers(r, fn)
             finally:
                 self.only_module_level = False
-        n = self._block(r, fn, fn.node.body)
+        n = _filter_loops(fn)
+        n += self._block(r, fn, fn.node.body)
         n += self._expr_helpers(r, fn)
         return n
 
@@ -677,6 +680,36 @@ class Inliner:
             return None
 
         return walk(e)
+
+
+def _filter_loops(fn: FuncInfo) -> int:
+    """`for x in filter(F, XS): body`  ==>  `for x in XS: if F(x): body`   (`filter(None, XS)` ==> `if x:`), so that a predicate applied
+    through the builtin is a guard like any other; a lambda predicate is applied to the loop variable directly."""
+    n = 0
+    for st in walk_no_nested(fn.node):
+        if not isinstance(st, ast.For) or not isinstance(st.target, ast.Name):
+            continue
+        it = st.iter
+        if not (isinstance(it, ast.Call) and isinstance(it.func, ast.Name) and it.func.id == "filter" and len(it.args) == 2 and not it.keywords):
+            continue
+        pred, xs = it.args
+        var = ast.Name(id=st.target.id, ctx=ast.Load())
+        if isinstance(pred, ast.Constant) and pred.value is None:
+            test: ast.expr = var
+        elif isinstance(pred, ast.Lambda) and len(pred.args.args) == 1 and not (pred.args.vararg or pred.args.kwarg or pred.args.kwonlyargs or pred.args.defaults):
+            test = _Subst({pred.args.args[0].arg: var}, {}).visit(copy.deepcopy(pred.body))
+        elif isinstance(pred, (ast.Name, ast.Attribute)):
+            test = ast.Call(func=copy.deepcopy(pred), args=[var], keywords=[])
+        else:
+            continue
+        guard = ast.If(test=test, body=st.body, orelse=[])
+        ast.copy_location(guard, st)
+        for x in ast.walk(test):
+            ast.copy_location(x, st)
+        st.iter = xs
+        st.body = [guard]
+        n += 1
+    return n
 
 
 def _set_ctx(t, ctx):
